@@ -23,9 +23,9 @@ RULE = ("Pairs (trusted root, offered root) built from a drawn plan: trusted ver
 ASSUMPTIONS = ["versions are Python ints; integral-float / bool versions are gray (DESIGN.md section 6)",
                "cryptography raw Ed25519 as oracle primitive (cross-checked in C19)"]
 
-FLAWS = ["none", "none", "none", "version", "trusted_sigs", "own_sigs", "type_T", "type_N", "noroot_T", "noroot_N",
+FLAWS = ["none", "none", "none", "version", "version", "trusted_sigs", "own_sigs", "type_T", "type_N", "noroot_T", "noroot_N",
          "malformed_T", "malformed_N", "junk_entry", "self_appointed", "threshold_from_new", "spelling_dups"]
-VERSION_PLANS = ["v", "v-1", "v+2", "1", "huge", "v+1.0?"]
+VERSION_PLANS = ["v", "v-1", "v+2", "1", "huge"]
 ENTRY_STATES = ["valid", "valid", "valid", "valid", "nonce", "raw_shape", "bitflip", "other_payload", "misfiled"]
 
 MALFORM = [("version", "2"), ("version", 0), ("version", None), ("version", 1.5), ("expiration", "2031-13-01T00:00:00Z"),
@@ -85,8 +85,8 @@ def root_pairs(draw):
         vplan = draw(st.sampled_from(VERSION_PLANS))
         if draw(st.booleans()):   # versions where float / 64-bit arithmetic would collide
             v = draw(st.sampled_from([2 ** 53, 2 ** 53 + 1, 2 ** 63 - 1, 2 ** 63, 2 ** 64 - 1, 2 ** 64, 10 ** 30, 2 ** 31 - 1]))
-    vN = {"v+1": v + 1, "v": v, "v-1": v - 1, "v+2": v + 2, "1": 1, "huge": v + 2 ** 64, "v+1.0?": v + 1}[vplan]
-    if vN < 1:
+    vN = {"v+1": v + 1, "v": v, "v-1": v - 1, "v+2": v + 2, "1": 1, "huge": v + 2 ** 64}[vplan]
+    if vN < 1 or (flaw == "version" and vN == v + 1):
         vN = v + 3
     ts = GM.signed_part("root", {"root": {"pubkeys": [pubs[i] for i in KT], "threshold": tT},
                                  "key_mgr": {"pubkeys": pubs[:1], "threshold": 1}}, version=v,
@@ -109,7 +109,8 @@ def root_pairs(draw):
     N = GM.wrap(ns)
     B = canon(ns)
     for i in signers:
-        state = draw(st.sampled_from(ENTRY_STATES)) if flaw in ("none", "junk_entry") or draw(st.integers(0, 3)) == 0 else "valid"
+        state = draw(st.sampled_from(ENTRY_STATES)) if flaw in ("none", "junk_entry") or (
+            flaw != "version" and draw(st.integers(0, 3)) == 0) else "valid"
         s = seeds[i]
         hdr = draw(GE.HEADERS)
         if state == "valid":
